@@ -100,7 +100,8 @@ class TransformedHistogramMixin(abc.ABC):
     ):
         if not transformed:
             value = self.transform(value)
-        return super().fill(value=value, weight=weight, **kwargs)  # type: ignore
+        # The value is transformed by now, the bin search must not transform it again
+        return super().fill(value=value, weight=weight, transformed=True, **kwargs)  # type: ignore
 
     def fill_n(
         self,
